@@ -30,3 +30,15 @@ from contracts import C06_diff as D6
 for t in D6.P.tasks:
     P.tasks.append(Task(P, "restored_snapshot_delta." + t.name, t.fn, t.func, files=t.files or D6.P.files, timeout=t.timeout))
 P.assumptions += ["shared with C06: " + a for a in D6.P.assumptions]
+
+
+# a copy is save + load through the descriptor table: it carries a member only if the descriptor that names it points at THAT
+# member (a copy-pasted offset makes two descriptors write the same member; both streams go through the same table, so compare
+# still says "equal" while the copy evolves differently).  The descriptor-table contract of C05 (every descriptor's offset is the
+# offset of the member it names; every persisted member has a descriptor) and the loader fix-up frame are re-registered here.
+from contracts import C05_table as T5
+P5 = Pack("C17", T5.P.files, "every descriptor addresses the member it names (shared with C05)")
+PACKS.append(P5)
+P5.assumptions += ["shared with C05: " + a for a in T5.P.assumptions]
+for t in T5.P.tasks:
+    P5.tasks.append(Task(P5, "copy_table." + t.name, t.fn, t.func, files=t.files or T5.P.files, timeout=t.timeout, replay=t.replay))
